@@ -34,12 +34,15 @@ const (
 	KAlias                   // type Tn struct{...}; type An = Tn: Tn where provided, the alias An where consumed
 	KTwinA                   // ma.U: type U of package <base>/ta/model, imported as ma
 	KTwinB                   // mb.U: type U of package <base>/tb/model (same package name, same type name), imported as mb
+	KF64                     // float64; a FallbackWith value of this type is written as a constant literal with 17 significant digits
 	numKinds
 )
 
 // Unnamed reports kinds that are unnamed Go types: two value types of such a
 // kind would be one type, so a flow has at most one of each.
-func (k TKind) Unnamed() bool { return k >= KU64 && k <= KArr || k >= KBytes && k <= KAnon }
+func (k TKind) Unnamed() bool {
+	return k >= KU64 && k <= KArr || k >= KBytes && k <= KAnon || k == KF64
+}
 
 // Spelling of a function expression.
 const (
